@@ -20,7 +20,8 @@ import sys
 import time
 
 ROOT = os.path.dirname(os.path.dirname(os.path.abspath(__file__)))
-WT = "/tmp/sv-eval"
+LANE = os.environ.get("VERIF_LANE", "")
+WT = "/tmp/sv-eval" + LANE
 NEXTEST = ["cargo", "nextest", "run", "--workspace", "--no-fail-fast", "--offline", "--test-threads", "8"]
 
 
@@ -28,7 +29,7 @@ def sh(cmd, cwd=None, env=None, timeout=7200):
     e = dict(os.environ)
     e["CARGO_NET_OFFLINE"] = "true"
     if cwd == WT:
-        e["CARGO_TARGET_DIR"] = "/tmp/sv-target"      # kept across evaluations (third-party crates are not rebuilt)
+        e["CARGO_TARGET_DIR"] = "/tmp/sv-target" + LANE      # kept across evaluations (third-party crates are not rebuilt)
     if env:
         e.update(env)
     p = subprocess.run(cmd, cwd=cwd, env=e, stdout=subprocess.PIPE, stderr=subprocess.STDOUT, timeout=timeout)
